@@ -4,9 +4,9 @@ CONSTANTS
   NodesOf <- MC_NodesOf
   RootOf <- MC_RootOf
   Langs = {"en", "fi"}
-  Codes = {"Nemeth", "UEB"}
+  Codes = {"Nemeth"}
   MaxStack = 1
-  MaxVer = 3
+  MaxVer = 2
   NewExprKeepsMarkers = FALSE
   RouteLeaksOverrideOnErr = FALSE
   SameDirKeepsTables = FALSE
